@@ -7,10 +7,33 @@ ids = [p['id'] for p in props]
 HOOK_COMMITS = ["f440103", "32328cf", "9e3b722", "c3bcd33"]
 
 # property -> (level text, level note, technique, design_ref)
+SIM = "deterministic simulation with fault injection"
+TRUST = "Trusted: the simulator (SimNet, scenario generators, oracles, independent codec), tokio's paused clock and timer wheel, single-threaded task-level interleaving. Sampling, not proof. "
 CLAIMED = {
- "C01": ("Seeded search over simulated duplex runs of two real sockets under drop/dup/reorder/stale/black-hole/EMSGSIZE/back-pressure/partition/suspend faults with keyed (PRF) payloads; every read is compared online with the written stream. Sampling, not proof.",
-         "Trusted: the simulator (SimNet, scenario generator, oracle), tokio's paused clock, single-threaded task-level interleaving. Corruption faults are excluded (uTP has no checksum). One genuine defect is recorded as known finding F1 (delivered MTU probe re-segmented).",
-         "deterministic simulation with fault injection: seeded search, online prefix oracle against the written PRF stream", "DESIGN.md §3 C01"),
+ "C01": ("Seeded search over simulated duplex runs of two real sockets under drop/dup/reorder/stale/black-hole/EMSGSIZE/back-pressure/partition/suspend faults with keyed (PRF) payloads; every read is compared online with the written stream.",
+         TRUST + "Corruption faults are excluded (uTP has no checksum). Genuine defect F1 (delivered MTU probe re-segmented) is a known finding.",
+         SIM + ": seeded search, online prefix oracle against the written PRF stream", "DESIGN.md §3 C01"),
+ "C02": ("(a) fair-lossy liveness: budgeted per-identity drops, duplication, reordering, bounded delay on an established connection, random placement plus systematic single-/pair-drop placement over every datagram ordinal; oracle: all accepted bytes read at the peer, flush/shutdown return, nothing parked, by the longest legitimate recovery time after the last fault. (b) loss-free fixed-latency promptness: wire-silence bound 2L+40 ms, idle write/shutdown emit at the same instant, flush wakes at the covering ACK.",
+         TRUST + "Premise checks (connector writes first; retransmission cap/inactivity sized for the budget) give no verdict when not met. Known finding F6 (no persist timer) and F1.",
+         SIM + ": seeded search + systematic single/pair fault placement, bounded-liveness and timing oracles over the recorded history", "DESIGN.md §3 C02"),
+ "C03": ("Duplex runs with a termination fault (cut forever, kill, forged RESET, cancel, FIN-exchange loss, cut at the very instant flush/shutdown returned Ok) at a seeded instant inside in-flight activity; oracles: success means delivered, EOF only after the bytes preceding a delivered FIN, failures surface within the configured bound (same instant for RESET/cancel).",
+         TRUST + "An endpoint that is purely idle when its peer vanishes has no obligation. Back-pressure runs get 1 s slack for 'same instant'. Known findings F1, F6.",
+         SIM + ": seeded search over termination-fault instants, history oracles on API results vs wire", "DESIGN.md §3 C03"),
+ "C08": ("Many open-transfer-close cycles on one socket pair against max_live_vsocks 1-4 with loss concentrated on closing packets, RESET, cancel, suspend, partitions; oracles: task ends within B(config) of the application letting go, table size == live tasks, silence after task end, no spurious TooManyActiveConnections, cancellation ends all tasks at that instant.",
+         TRUST + "Obligation only for the side whose application let go (or failed). Known finding F6.",
+         SIM + ": seeded search over connection life cycles, probe (task create/drop, table size) + wire + API oracles", "DESIGN.md §3 C08"),
+ "C11": ("(i) every datagram emitted in every run parsed by an independent BEP-29 parser incl. connection-id-owed-to-direction; (ii) library header codec round-trips every emitted header byte for byte; (iii) differential accept/reject between the socket's own verdict (hook H3) and the reference parser on every delivered datagram incl. seeded corruptions (bit flips in type/version/extension bytes/header fields, truncation, garbage, payload toggling, unknown extensions); unknown extensions must not move the payload boundary (C01 oracle under extension insertion).",
+         TRUST + "NOT claimed: totality over all byte strings by structural enumeration (a pure function of its input; only the population the simulated network delivers is covered).",
+         SIM + ": seeded corruption faults on the simulated wire, differential parser oracle", "DESIGN.md §3 C11"),
+ "C14": ("Duplex transfers over size-black-holing / EMSGSIZE paths at every link MTU / path MTU / address family, asymmetric link MTUs, loss restricted to non-probe datagrams; oracles: no datagram above the configured link MTU, at most one oversized probe and it is the newest segment, stream integrity on the black-holing path, convergence to the largest fitting payload within a logarithmic number of probes (loss-free-for-probes family).",
+         TRUST + "Convergence is judged only when probes and their ACKs are spared (a lost probe/ACK is indistinguishable from 'too big' by design). Known finding F1.",
+         SIM + ": seeded search over MTU configurations and size faults, wire-size model oracle", "DESIGN.md §3 C14"),
+ "C15": ("In situ: every CongestionController call made by every running connection (hook H4) in lossy duplex, black-hole and 'extremes' families (0 ms and multi-second RTT, hours-long suspend jumps, long back-off chains, zero/tiny peer windows, MSS steps) is checked: bounds, finite values, loss reaction and ssthresh = max(0.7 w, 2 mss), slow-start growth <= acked bytes, MSS change keeps bytes.",
+         TRUST + "Only event sequences reachable through a connection are explored (the controller is not driven directly with generated numbers).",
+         SIM + ": invariants over controller events recorded inside simulated connections", "DESIGN.md §3 C15"),
+ "C16": ("In situ: every RttEstimator sample/timeout of every connection (hook H5): 200 ms <= RTO <= 60 s, RTO == clamp(srtt + max(4 rttvar, 10 ms)) after a sample, doubling on timeout, srtt within [min,max] of samples; extremes via 0-latency nets, multi-second delays, suspend jumps, back-off chains to the 60 s cap.",
+         TRUST + "Only sample sequences reachable through a connection are explored.",
+         SIM + ": invariants over estimator events recorded inside simulated connections", "DESIGN.md §3 C16"),
 }
 NOT_APPLICABLE = {}
 
